@@ -816,6 +816,20 @@ func Go(label string, f func()) {
 	s.newThread(label+"@"+caller(), f)
 }
 
+// Unfinished lists the labels of the threads (other than the caller) that have not finished yet, daemons excluded.
+func Unfinished() []string {
+	var r []string
+	if s == nil {
+		return r
+	}
+	for _, t := range s.threads {
+		if t != s.cur && !t.finished && !t.daemon {
+			r = append(r, t.label)
+		}
+	}
+	return r
+}
+
 // Daemon marks the calling thread: it may stay blocked when the execution ends.
 func Daemon() {
 	if s != nil && s.cur != nil {
